@@ -418,7 +418,9 @@ def listing (fs : FS Path) (filesOnly : Bool) : String :=
   let sorted := (sortEntries ents).map (·.2)
   if sorted.isEmpty then "-" else ",".intercalate sorted
 
-def pathOfHex (s : String) : Option Path := (bytesOfHex s).map fun b => if b.isEmpty then [] else splitSlash b
+/-- paths are compared component-wise by `std::path` (`starts_with`, `==`): `a/`, `a//b`, `./a` are `a`, `a/b`, `a` -/
+def pathOfHex (s : String) : Option Path :=
+  (bytesOfHex s).map fun b => (splitSlash b).filter (fun c => c ≠ [] ∧ c ≠ [46])
 
 def runEvents (sim : Sim) (evs : List (Event Path)) : Option Sim :=
   (run pathOps sim.st evs).map fun st => { sim with st := st }
